@@ -163,13 +163,17 @@ class _Unroll(ast.NodeTransformer):
             return node
         if any(isinstance(e, ast.Starred) for e in it.elts):
             return node
-        for st in node.body:
+        import copy
+
+        body0 = _continue_to_if([copy.deepcopy(st) for st in node.body])
+        for st in body0:
             for x in ast.walk(st):
                 if isinstance(x, (ast.Break, ast.Continue)):
                     return node
         if not isinstance(node.target, (ast.Name, ast.Tuple)):
             return node
-        import copy
+        node = copy.copy(node)
+        node.body = body0
 
         out: list[ast.stmt] = []
         stores_target = isinstance(node.target, ast.Name) and any(
@@ -185,6 +189,41 @@ class _Unroll(ast.NodeTransformer):
                 body = [_FoldConst(node.target.id, e.value).visit(st) for st in body]
             out.extend(body)
         return out
+
+
+def _continue_to_if(stmts: list) -> list:
+    """`if c: continue` followed by the rest of a loop body is `if not c: <rest>` (top level of the body only)."""
+    for i, st in enumerate(stmts):
+        if isinstance(st, ast.If) and not st.orelse and len(st.body) == 1 and isinstance(st.body[0], ast.Continue):
+            rest = _continue_to_if(stmts[i + 1:])
+            if not rest:
+                return stmts[:i]
+            neg = ast.copy_location(ast.UnaryOp(op=ast.Not(), operand=st.test), st.test)
+            return stmts[:i] + [ast.copy_location(ast.If(test=neg, body=rest, orelse=[]), st)]
+    return stmts
+
+
+class _TupleComps(ast.NodeTransformer):
+    """`a, b = (f(x) for x in (p, q))` (also a list comprehension; one generator over a literal of as many elements
+    as there are targets, no condition) is `a, b = f(p), f(q)`."""
+
+    def visit_Assign(self, node: ast.Assign):
+        import copy
+
+        self.generic_visit(node)
+        if len(node.targets) != 1 or not isinstance(node.targets[0], ast.Tuple) or not isinstance(node.value, (ast.GeneratorExp, ast.ListComp)):
+            return node
+        comp = node.value
+        if len(comp.generators) != 1:
+            return node
+        g = comp.generators[0]
+        if g.ifs or g.is_async or not isinstance(g.target, ast.Name) or not isinstance(g.iter, (ast.Tuple, ast.List)):
+            return node
+        if len(g.iter.elts) != len(node.targets[0].elts) or not (1 <= len(g.iter.elts) <= 4) or any(not isinstance(e, (ast.Name, ast.Constant, ast.Attribute)) for e in g.iter.elts):
+            return node
+        elts = [_Rename({g.target.id: e}, {}).visit(copy.deepcopy(comp.elt)) for e in g.iter.elts]
+        node.value = ast.copy_location(ast.Tuple(elts=elts, ctx=ast.Load()), comp)
+        return node
 
 
 class _FoldConst(ast.NodeTransformer):
@@ -975,6 +1014,10 @@ def normalise_tree(tree: ast.Module) -> ast.Module:
     except Exception:  # noqa: BLE001 - optional normal form
         pass
     tree = _Unroll(tables).visit(tree)
+    try:
+        tree = _TupleComps().visit(tree)
+    except Exception:  # noqa: BLE001 - optional normal form
+        pass
     tree = _Idioms().visit(tree)
     if INLINE_PROCEDURES:
         try:
